@@ -244,7 +244,7 @@ def evaluate(run, cases, fixes):
     checked = core.coq_eval_sharded(cc.XPREAMBLE, [cc.xcase_term(cfg, hist, recs, fixes)
                                                    for (cfg, hist), recs in zip(cases, recs_all)],
                                     "(fun r : result => r)", "rresult", shard=60, jobs=12)
-    queue_bad = xdis = 0
+    queue_bad = xdis = room_bad = contract_bad = contract_n = 0
     for (cfg, hist), recs, (mres, _) in zip(cases, recs_all, checked):
         xout = [({"raises": o[1]} if o[0] == "raise" else [list(x) for x in o[1]]) for o, _, _ in mres]
         if xout != [cc.out_pairs(r) for r in recs]:
@@ -266,12 +266,38 @@ def evaluate(run, cases, fixes):
                     run.proof_broken.append(f"C10 scene, frame {k}: nan_consistent={chk[1]} answer_valid={chk[2]} "
                                             f"greedy_run={chk[3]} candidates_equal={cands_ok} max_tracks_selector={chk[7]}; "
                                             f"case {json.dumps(cc.hist_json(cfg, hist))[:1200]}")
+            # premises of c10x_identity_preserved_widened_any_fix evaluated inside Coq on the recorded call: room under the cap
+            # (TrackerX.cap_roomb = c10x_room_is_checked; `sel_cap` above is constantly false once F4cap is repaired), the
+            # answer is a one-to-one assignment (valid_ansb), and afd312c's branch is not taken (proved for in-class calls)
+            v_ans, s_ivb, s_room = chk[10:13]
+            if not (s_room and v_ans) or s_ivb:
+                room_bad += 1
+                if len(run.proof_broken) < 8:
+                    run.proof_broken.append(f"C10 scene, frame {k}: cap_room={s_room} valid_ans={v_ans} iv_branch={s_ivb}; "
+                                            f"case {json.dumps(cc.hist_json(cfg, hist))[:1200]}")
+            if "scores" in rec and not cfg["greedy"] and ("answer" in rec or "answer_error" in rec):
+                # the Hungarian CONTRACT (optimality) is a premise of every C10 theorem: brute force on every recorded answer
+                # (matrices are at most 4 x 4)
+                M = rec["scores"].tolist()
+                contract_n += 1
+                why = cc.hungarian_contract(M, len(hist[k]), rec["n_tracks_before"], rec, fixes["iii_hungarian"])
+                if why:
+                    contract_bad += 1
+                    if len(run.proof_broken) < 8:
+                        run.proof_broken.append(f"C10 scene, frame {k}: hungarian contract: {why}; "
+                                                f"case {json.dumps(cc.hist_json(cfg, hist))[:1200]}")
     run.obligation("correspondence (widened model TrackerX.xrun, incl. max_tracks and the optical-flow tracker) on every scene",
                    xdis == 0, f"{xdis} disagreements")
     run.obligation("model-side checks on every recorded call of every scene: NaN pattern of the score matrix = "
                    "candidates the model's queues hold (no flow); the candidates given to get_scores are the model's; answers "
                    "valid; greedy answers are greedy runs; the max_tracks selector never fires (cap >= number of animals)",
                    queue_bad == 0, f"{queue_bad} calls")
+    run.obligation("premises of c10x_identity_preserved_widened_any_fix evaluated INSIDE Coq on every recorded call of every "
+                   "scene: room under the cap (TrackerX.cap_roomb), the answer is a one-to-one assignment (valid_ansb), the "
+                   "branch added by afd312c is not taken", room_bad == 0, f"{room_bad} calls")
+    run.obligation("Hungarian oracle contract (optimal finite assignment; premise `contract_step` of the C10 theorems) by "
+                   "brute force on every recorded Hungarian answer of the scenes", contract_bad == 0 and contract_n > 0,
+                   f"{contract_bad} of {contract_n} answers")
     st = run.coverage.setdefault("steps", {})
 
     def bump(k, n=1):
@@ -343,6 +369,30 @@ def evaluate(run, cases, fixes):
     return disagree, premise_mismatch
 
 
+def check_two_trackers(run, cases, fixes):
+    """Several real trackers alive in one process, the class-level `Tracker._track_objects` dict left shared as in the code,
+    scenes interleaved frame by frame.  C10 speaks about one scene = one run of one tracker ("no other animal" = of that
+    scene): every tracker must keep every identity of ITS scene exactly as it does alone.  That animals of different
+    scenes then carry the same `sio.Track` object is recorded as a fact; it is outside the statement."""
+    groups = [cases[i:i + 2] for i in range(0, len(cases) - 1, 2)]
+    bad, shared, n = [], 0, 0
+    for g in groups:
+        recs, facts = cc.run_impl_interleaved(g)
+        shared += facts["tracker_pairs_sharing_a_Track_object"]
+        for (cfg, hist), rs in zip(g, recs):
+            n += 1
+            alone = cc.run_impl(cfg, hist)
+            if [cc.out_pairs(r) for r in alone] != [cc.out_pairs(r) for r in rs]:
+                bad.append(f"outputs differ from the isolated run; case {json.dumps(cc.hist_json(cfg, hist))[:800]}")
+            elif scene_oracle(hist, rs) and not scene_oracle(hist, alone):
+                bad.append(f"identity lost only when interleaved; case {json.dumps(cc.hist_json(cfg, hist))[:800]}")
+    run.coverage["two_trackers_one_process"] = {"trackers": n, "tracker_pairs_sharing_a_Track_object": shared}
+    for b in bad[:3]:
+        run.proof_broken.append("several trackers in one process (shared class-level _track_objects): " + b)
+    run.obligation("several Tracker instances alive in one process (class-level `_track_objects` shared, scenes interleaved): "
+                   "every tracker returns exactly what it returns alone", not bad, f"{len(bad)} of {n} trackers")
+
+
 def corpus_cases():
     out = []
     for fid, sel, fname in KNOWN:
@@ -380,6 +430,7 @@ def check(run: core.Run) -> int:
         worst_step = max(worst_step, max_step(hist))
         cases.append((cfg, hist))
     disagree, premise_mismatch = evaluate(run, cases, fixes)
+    check_two_trackers(run, [c for c in cases[len(KNOWN):] if not c[0].get("flow")][:24 if not thorough else 120], fixes)
     st = run.coverage["steps"]
     run.obligation("correspondence: Scene.run10 (Coq, vm_compute, fed with the recorded score matrices and matcher "
                    "answers) == Tracker.track (/repo) on every scene, incl. the animal -> track map", disagree == 0,
@@ -403,14 +454,17 @@ def check(run: core.Run) -> int:
     for c in (cases[0], cases[len(cases) // 2], cases[-1]):
         run.sample(cc.hist_json(*c))
     run.trusted += [
-        "scipy linear_sum_assignment / numpy argsort enter through the recorded matcher answers (contracts checked in C09)",
+        "scipy linear_sum_assignment / numpy argsort enter through the recorded matcher answers (Hungarian contract brute-forced "
+        "on every recorded answer here; greedy answers recognised exactly inside Coq)",
+        "idealisation: each scene runs on a tracker whose `_track_objects` dict is its own; `check_two_trackers` runs pairs of "
+        "trackers with the class-level dict shared as in the code",
         "feature extraction and scoring functions enter through the recorded score matrices; 'far apart compared with the "
         "motion' is represented by the dominance premise, which is measured on every recorded matrix",
         "duck-typed instances stand for sleap_io.PredictedInstance",
     ]
-    run.assumptions += ["spacing >= 20 x largest per-frame step, instance extent 16 x 20 px, window in {1,2,3,5}",
+    run.assumptions += ["home positions 64 px apart (1000 px in regime fast_small), instance extent 16 x 20 px, largest per-frame step and spacing/step measured per run (coverage.largest_step_px, spacing_over_step: about 11 px, 6 x), window in {1,2,3,5}",
                         "all instance scores above the new-track threshold",
-                        "max_tracks = None or >= number of animals (never binding)",
+                        "max_tracks = None or >= number of animals (room under the cap at every call: evaluated inside Coq, cap_roomb)",
                         "optical-flow scenes: no absences; judged only where the recorded scores satisfy the dominance premise"]
     return run.finish()
 
